@@ -34,7 +34,7 @@ var expectedMiss = map[string]string{}
 // prefixMap: reversed fix commits and the properties whose checks must flag the pre-fix tree.
 var prefixMap = map[string][]string{
 	"599fc63": {"C04", "C05"}, "3f2511a": {"C05", "C06"}, "ea5225b": {"C05", "C06"}, "2b7fe47": {"C05"},
-	"fd9ac05": {"C09"}, "10ac675": {"C14"}, "5dbcba8": {"C15"}, "50c29f4": {"C20"}, "0167c2c": {"C17"}, "e25cddd": {"C17"},
+	"fd9ac05": {"C09"}, "10ac675": {"C14"}, "5dbcba8": {"C15"}, "50c29f4": {"C20"}, "0167c2c": {"C17"}, "e25cddd": {"C17"}, "c42d982": {"C08"},
 }
 
 func thoroughExtras(p *Prog, c *Check) {
